@@ -348,3 +348,755 @@ theorem insertGlom_free (pre rest : List String) (hfree : ∀ x ∈ pre, Free x)
     rw [ih (fun x hx => hfree x (List.mem_cons_of_mem _ hx))]
 
 end Glom.C04
+
+namespace Glom.C04
+
+/-! ### class chains -/
+
+theorem isInst_self (e : ExcObj) : isInst e e.cls.name = true := by
+  simp [isInst, ClassInfo.mro]
+
+/-- what `type(name, bases, …)` in `GlomError.wrap` yields, when it yields a class -/
+theorem wrapClass_cases {c wc : ClassInfo} (h : wrapClass c = some wc) :
+    (glomMro.contains c.name = true ∧ wc.bases = glomMro ∧ wc.ctor = some ∧ wc.frozen = false ∧
+      wc.copyVia = .args) ∨
+    (glomMro.contains c.name = false ∧ c.sealed = false ∧ wrapMro c.mro = some wc.bases ∧ wc.ctor = c.ctor ∧
+      wc.frozen = c.frozen ∧ wc.copyVia = c.copyVia ∧ wc.falsy = c.falsy) := by
+  unfold wrapClass at h
+  by_cases hg : glomMro.contains c.name = true
+  · rw [if_pos hg] at h
+    cases h
+    exact Or.inl ⟨hg, rfl, rfl, rfl, rfl⟩
+  · rw [if_neg hg] at h
+    by_cases hs : c.sealed = true
+    · rw [if_pos hs] at h; cases h
+    · rw [if_neg hs] at h
+      cases hm : wrapMro c.mro with
+      | none => rw [hm] at h; cases h
+      | some m =>
+        rw [hm] at h
+        simp only [Option.map_some, Option.some.injEq] at h
+        subst h
+        exact Or.inr ⟨by simpa using hg, by simpa using hs, rfl, rfl, rfl, rfl, rfl⟩
+
+theorem wrapClass_has_glom {c wc : ClassInfo} (h : wrapClass c = some wc) :
+    wc.mro.contains "GlomError" = true := by
+  rcases wrapClass_cases h with ⟨_, hb, _⟩ | ⟨_, _, hm, _⟩
+  · simp [ClassInfo.mro, hb, glomMro]
+  · have := c3merge_sound _ _ _ hm glomMro (by simp) "GlomError" (by simp [glomMro])
+    simp [ClassInfo.mro, this]
+
+theorem wrapClass_has_orig {c wc : ClassInfo} (h : wrapClass c = some wc) :
+    wc.mro.contains c.name = true := by
+  rcases wrapClass_cases h with ⟨hg, hb, _⟩ | ⟨_, _, hm, _⟩
+  · simp only [ClassInfo.mro, hb, List.contains_cons, hg, Bool.or_true]
+  · have := c3merge_sound _ _ _ hm c.mro (by simp) c.name (by simp [ClassInfo.mro])
+    simp [ClassInfo.mro, this]
+
+/-- a class whose recorded MRO is that of the builtin it names (only `GlomError`'s own bases matter) -/
+def ClassOK (c : ClassInfo) : Prop := glomMro.contains c.name = true → ∀ x ∈ c.mro, x ∈ glomMro
+
+/-- **every base stays catchable**: each class of the original MRO is in the wrapper's MRO -/
+theorem wrapClass_sup {c wc : ClassInfo} (h : wrapClass c = some wc) (hok : ClassOK c) :
+    ∀ x ∈ c.mro, x ∈ wc.mro := by
+  intro x hx
+  rcases wrapClass_cases h with ⟨hg, hb, _⟩ | ⟨_, _, hm, _⟩
+  · simp only [ClassInfo.mro, hb]
+    exact List.mem_cons_of_mem _ (hok hg x hx)
+  · exact List.mem_cons_of_mem _ (c3merge_sound _ _ _ hm c.mro (by simp) x hx)
+
+/-- an exception that may leave `glom()` in place of `e`: an instance of `e`'s class with `e`'s args -/
+def Faithful (e out : ExcObj) : Prop := isInst out e.cls.name = true ∧ out.args = e.args
+
+theorem Faithful.refl (e : ExcObj) : Faithful e e := ⟨isInst_self e, rfl⟩
+
+/-- the classes the handler copes with: the `type(…)` call succeeds or is guarded, attribute
+    assignment on a GlomError instance succeeds or is guarded, `copy.copy` keeps the class -/
+structure Tame (F : Facts) (c : ClassInfo) : Prop where
+  typeOk : F.wrapTypeInTry = true ∨ (wrapClass c).isSome = true ∨ c.mro.contains "GlomError" = true
+  attrOk : c.mro.contains "GlomError" = true → (F.attrGuarded = true ∨ c.frozen = false)
+  copyOk : c.copyVia ≠ .foreign
+
+/-! ### `GlomError.wrap` and `copy.copy` under the guards -/
+
+/-- what the handler raises instead of `e` -/
+inductive Raised (e out : ExcObj) : Prop
+  | orig (h : out = e)                                         -- the very object
+  | copy (hc : out.cls = e.cls) (ha : out.args = e.args) (hw : out.wrapped = some e.id)
+      (hg : isInst e "GlomError" = true)                        -- only GlomErrors are copied
+  | wrapper (wc : ClassInfo) (hwc : wrapClass e.cls = some wc) (hc : out.cls = wc) (ha : out.args = e.args)
+      (hw : out.wrapped = some e.id) (hcause : out.cause = none ∧ out.context = none) (hfz : wc.frozen = false)
+
+theorem Raised.faithful {e out : ExcObj} (h : Raised e out) : Faithful e out := by
+  cases h with
+  | orig h => subst h; exact Faithful.refl _
+  | copy hc ha _ _ => exact ⟨by simp [isInst, hc, ClassInfo.mro], ha⟩
+  | wrapper wc hwc hc ha _ _ _ => exact ⟨by simpa [isInst, hc] using wrapClass_has_orig hwc, ha⟩
+
+theorem Raised.args {e out : ExcObj} (h : Raised e out) : out.args = e.args := h.faithful.2
+
+theorem Raised.reach {e out : ExcObj} (h : Raised e out) : out = e ∨ out.wrapped = some e.id := by
+  cases h with
+  | orig h => exact Or.inl h
+  | copy _ _ hw _ => exact Or.inr hw
+  | wrapper _ _ _ _ hw _ _ => exact Or.inr hw
+
+/-- every except clause that caught `e` catches what is raised instead -/
+theorem Raised.sup {e out : ExcObj} (h : Raised e out) (hok : ClassOK e.cls) :
+    ∀ c, isInst e c = true → isInst out c = true := by
+  intro c hc
+  cases h with
+  | orig h => subst h; exact hc
+  | copy hcl _ _ _ => simpa [isInst, hcl] using hc
+  | wrapper wc hwc hcl _ _ _ _ =>
+    have : c ∈ e.cls.mro := by simpa [isInst] using hc
+    have := wrapClass_sup hwc hok c this
+    simpa [isInst, hcl] using this
+
+theorem pyCopy_cls {F : Facts} (w : WFParts F) {e c : ExcObj} (hf : e.cls.copyVia ≠ .foreign)
+    (h : pyCopy F e = some c) : c.cls = e.cls := by
+  unfold pyCopy at h
+  split at h
+  · cases h; rfl
+  · rename_i hk; exact absurd hk hf
+  · simp only [w.tmeCopy, Bool.false_eq_true, if_false] at h
+    split at h
+    · split at h
+      · simp only [Option.map_eq_some_iff] at h
+        obtain ⟨a, _, rfl⟩ := h; rfl
+      · cases h
+    · simp only [Option.map_eq_some_iff] at h
+      obtain ⟨a, _, rfl⟩ := h; rfl
+
+/-- the `err` of the GlomError branch: the copy when it has the same args, else the original -/
+theorem copy_branch_faithful {F : Facts} (w : WFParts F) (e : ExcObj) (hf : e.cls.copyVia ≠ .foreign) :
+    ∃ err, copyBranch F e = .ok err ∧ err.cls = e.cls ∧ err.args = e.args := by
+  unfold copyBranch
+  simp only [w.copyArgsCheck, w.copyFallback, Bool.true_and, if_true]
+  cases h : pyCopy F e with
+  | none => exact ⟨e, rfl, rfl, rfl⟩
+  | some c =>
+    by_cases ha : c.args = e.args
+    · exact ⟨c, by simp [ha], pyCopy_cls w hf h, ha⟩
+    · exact ⟨e, by simp [ha], rfl, rfl⟩
+
+/-- the GlomError branch ends in the original or in a copy of the same class -/
+theorem glomErr_finish {F : Facts} (w : WFParts F) (e : ExcObj) (ht : Tame F e.cls)
+    (hg : isInst e "GlomError" = true) :
+    ∃ out, finish F e (glomErrBranch F e) = .exc out ∧ Raised e out ∧ out.cls = e.cls := by
+  obtain ⟨⟨eid, ecls, eargs, einit, ecause, ectx, ewr⟩, herr, hcls, hargs⟩ :=
+    copy_branch_faithful w e ht.copyOk
+  simp only at hcls hargs
+  subst hcls hargs
+  have hgm : e.cls.mro.contains "GlomError" = true := by simpa [isInst] using hg
+  unfold glomErrBranch
+  rw [herr]
+  simp only [isInst, hgm, if_true]
+  by_cases hfz : e.cls.frozen = true
+  · have hga : F.attrGuarded = true := by
+      rcases ht.attrOk hgm with h | h
+      · exact h
+      · rw [hfz] at h; cases h
+    simp only [hfz, if_true, hga, finish, isInst, hgm]
+    exact ⟨e, rfl, .orig rfl, rfl⟩
+  · have hfz' : e.cls.frozen = false := by simpa using hfz
+    simp only [hfz', Bool.false_eq_true, if_false, finish, isInst, hgm, if_true, w.errTest, Bool.false_and]
+    exact ⟨_, rfl, .copy rfl rfl rfl hg, rfl⟩
+
+/-- the other branch ends in the original or in an instance of the wrapper class -/
+theorem wrap_finish {F : Facts} (w : WFParts F) (e : ExcObj) (ht : Tame F e.cls)
+    (hg : isInst e "GlomError" = false) :
+    ∃ out, finish F e (wrap F e) = .exc out ∧ Raised e out ∧
+      (out = e ∨ ∃ wc, wrapClass e.cls = some wc ∧ out.cls = wc ∧ wc.frozen = false) := by
+  have hgm : e.cls.mro.contains "GlomError" = false := by simpa [isInst] using hg
+  unfold wrap
+  cases hwc : wrapClass e.cls with
+  | none =>
+    have hty : F.wrapTypeInTry = true := by
+      rcases ht.typeOk with h | h | h
+      · exact h
+      · rw [hwc] at h; cases h
+      · rw [hgm] at h; cases h
+    simp only [hty, w.wrapFallback, Bool.and_self, if_true, finish, hg, Bool.false_eq_true, if_false]
+    exact ⟨e, rfl, .orig rfl, Or.inl rfl⟩
+  | some wc =>
+    simp only [w.wrapArgsCheck, w.wrapFallback, Bool.true_and, if_true]
+    cases hc : wc.ctor e.args with
+    | none =>
+      simp only [finish, hg, Bool.false_eq_true, if_false]
+      exact ⟨e, rfl, .orig rfl, Or.inl rfl⟩
+    | some a =>
+      by_cases ha : a = e.args
+      · subst ha
+        simp only [bne_self_eq_false, Bool.false_eq_true, if_false]
+        by_cases hfz : wc.frozen = true
+        · simp only [hfz, if_true, finish, hg, Bool.false_eq_true, if_false]
+          exact ⟨e, rfl, .orig rfl, Or.inl rfl⟩
+        · have hfz' : wc.frozen = false := by simpa using hfz
+          simp only [hfz', Bool.false_eq_true, if_false, finish]
+          have hig : isInst (ExcObj.mk (e.id + 1) wc e.args e.args none none (some e.id)) "GlomError" = true :=
+            wrapClass_has_glom hwc
+          simp only [hig, if_true, hfz', Bool.false_eq_true, if_false, w.errTest, Bool.false_and]
+          exact ⟨_, rfl, .wrapper wc hwc rfl rfl rfl ⟨rfl, rfl⟩ hfz', Or.inr ⟨wc, rfl, rfl, hfz'⟩⟩
+      · simp only [bne_iff_ne, ne_eq, ha, not_false_eq_true, decide_true, if_true, finish, hg,
+          Bool.false_eq_true, if_false]
+        exact ⟨e, rfl, .orig rfl, Or.inl rfl⟩
+
+/-- a rebuildable, extensible class whose wrapper class can be created IS wrapped -/
+theorem wrap_finish_glom {F : Facts} (w : WFParts F) (e : ExcObj)
+    (hre : rebuildable e = true) (hext : extensible e = true) (hwc : (wrapClass e.cls).isSome = true) :
+    ∃ out, finish F e (wrap F e) = .exc out ∧ isInst out "GlomError" = true := by
+  obtain ⟨wc, hwc⟩ := Option.isSome_iff_exists.mp hwc
+  have hfz : e.cls.frozen = false := by
+    simp only [extensible, Bool.and_eq_true, Bool.not_eq_true'] at hext; exact hext.2
+  have hctor : wc.ctor e.args = some e.args ∧ wc.frozen = false := by
+    rcases wrapClass_cases hwc with ⟨_, _, hc, hf, _⟩ | ⟨_, _, _, hc, hf, _⟩
+    · exact ⟨by rw [hc], hf⟩
+    · exact ⟨by rw [hc]; simpa [rebuildable] using hre, by rw [hf]; exact hfz⟩
+  unfold wrap
+  rw [hwc]
+  simp only [hctor.1, w.wrapArgsCheck, Bool.true_and, bne_self_eq_false, Bool.false_eq_true, if_false, hctor.2,
+    finish]
+  have hig : isInst (ExcObj.mk (e.id + 1) wc e.args e.args none none (some e.id)) "GlomError" = true :=
+    wrapClass_has_glom hwc
+  simp only [hig, if_true, hctor.2, Bool.false_eq_true, if_false, w.errTest, Bool.false_and]
+  exact ⟨_, rfl, hig⟩
+
+/-! ### the handler -/
+
+/-- with `glom_debug` on, the handler re-raises the object it caught -/
+theorem handler_debug {F : Facts} (s : Settings) (e : ExcObj) (hd : effDebug F s = true) :
+    handler F s e = .exc e := by
+  unfold handler; simp [hd]
+
+/-- with `glom_debug` off, the handler raises the original, a copy of the same class, or an
+    instance of the wrapper class -/
+theorem handler_nodebug {F : Facts} (w : WFParts F) (s : Settings) (e : ExcObj) (ht : Tame F e.cls)
+    (hd : effDebug F s = false) :
+    ∃ out, handler F s e = .exc out ∧ Raised e out := by
+  unfold handler
+  simp only [hd, Bool.false_eq_true, if_false]
+  by_cases hg : isInst e "GlomError" = true
+  · obtain ⟨out, h, hr, _⟩ := glomErr_finish w e ht hg
+    exact ⟨out, by simp only [hg, if_true]; exact h, hr⟩
+  · have hg' : isInst e "GlomError" = false := by simpa using hg
+    obtain ⟨out, h, hr, _⟩ := wrap_finish w e ht hg'
+    exact ⟨out, by simp only [hg', Bool.false_eq_true, if_false]; exact h, hr⟩
+
+/-- … a GlomError whenever `e` is one, or can be rebuilt from its args by a class that can be extended -/
+theorem handler_glomerror {F : Facts} (w : WFParts F) (s : Settings) (e : ExcObj) (ht : Tame F e.cls)
+    (hd : effDebug F s = false)
+    (hre : isInst e "GlomError" = true ∨
+      (rebuildable e = true ∧ extensible e = true ∧ (wrapClass e.cls).isSome = true)) :
+    ∃ out, handler F s e = .exc out ∧ isInst out "GlomError" = true := by
+  unfold handler
+  simp only [hd, Bool.false_eq_true, if_false]
+  by_cases hg : isInst e "GlomError" = true
+  · obtain ⟨out, h, _, hc⟩ := glomErr_finish w e ht hg
+    exact ⟨out, by simp only [hg, if_true]; exact h, by simpa [isInst, hc] using hg⟩
+  · have hg' : isInst e "GlomError" = false := by simpa using hg
+    rcases hre with h | ⟨h1, h2, h3⟩
+    · exact absurd h hg
+    · obtain ⟨out, h, hi⟩ := wrap_finish_glom w e h1 h2 h3
+      exact ⟨out, by simp only [hg', Bool.false_eq_true, if_false]; exact h, hi⟩
+
+/-- in every case the handler raises a faithful exception -/
+theorem handler_raised {F : Facts} (w : WFParts F) (s : Settings) (e : ExcObj) (ht : Tame F e.cls) :
+    ∃ out, handler F s e = .exc out ∧ Raised e out := by
+  cases hd : effDebug F s with
+  | true => exact ⟨e, handler_debug s e hd, .orig rfl⟩
+  | false => exact handler_nodebug w s e ht hd
+
+theorem outer_raised {F : Facts} (w : WFParts F) (s : Settings) (e : ExcObj) (ht : Tame F e.cls) :
+    ∃ out, outer F s e = .exc out ∧ Raised e out := by
+  unfold outer
+  split
+  · exact handler_raised w s e ht
+  · exact ⟨e, rfl, .orig rfl⟩
+
+theorem outer_faithful {F : Facts} (w : WFParts F) (s : Settings) (e : ExcObj) (ht : Tame F e.cls) :
+    ∃ out, outer F s e = .exc out ∧ Faithful e out := by
+  obtain ⟨out, h, hr⟩ := outer_raised w s e ht
+  exact ⟨out, h, hr.faithful⟩
+
+/-- what is raised and is not a GlomError is the original object -/
+theorem Raised.not_glom {e out : ExcObj} (h : Raised e out) (hg : isInst out "GlomError" = false) : out = e := by
+  cases h with
+  | orig h => exact h
+  | copy hc _ _ hge => rw [isInst, hc] at hg; rw [isInst, hg] at hge; cases hge
+  | wrapper wc hwc hc _ _ _ _ =>
+    have := wrapClass_has_glom hwc
+    rw [isInst, hc, this] at hg; cases hg
+
+/-- what is raised instead of a tame exception is tame again -/
+theorem Raised.tame {F : Facts} {e out : ExcObj} (h : Raised e out) (ht : Tame F e.cls) : Tame F out.cls := by
+  cases h with
+  | orig h => subst h; exact ht
+  | copy hc _ _ _ => rw [hc]; exact ht
+  | wrapper wc hwc hc _ _ _ hfz =>
+    rw [hc]
+    have hgl := wrapClass_has_glom hwc
+    refine ⟨Or.inr (Or.inr hgl), fun _ => Or.inr hfz, ?_⟩
+    rcases wrapClass_cases hwc with ⟨_, _, _, _, hk⟩ | ⟨_, _, _, _, _, hk, _⟩
+    · rw [hk]; intro h; cases h
+    · rw [hk]; exact ht.copyOk
+
+theorem glomMro_length {x : String} (h : x ∈ glomMro) : x.length ≤ 13 := by
+  simp only [glomMro, List.mem_cons, List.not_mem_nil, or_false] at h
+  rcases h with rfl | rfl | rfl | rfl <;> decide
+
+theorem wrapName_not_glom (c : ClassInfo) : glomMro.contains (wrapName c) = false := by
+  cases h : glomMro.contains (wrapName c) with
+  | false => rfl
+  | true =>
+    have hl := glomMro_length (List.contains_iff_mem.mp h)
+    simp only [wrapName, String.length_append] at hl
+    have : "GlomError.wrap(".length = 15 := by decide
+    omega
+
+theorem Raised.classOK {e out : ExcObj} (h : Raised e out) (hok : ClassOK e.cls) : ClassOK out.cls := by
+  cases h with
+  | orig h => subst h; exact hok
+  | copy hc _ _ _ => rw [hc]; exact hok
+  | wrapper wc hwc hc _ _ _ _ =>
+    rw [hc]
+    intro hg
+    have hn : wc.name = wrapName e.cls := by
+      unfold wrapClass at hwc
+      split at hwc
+      · cases hwc; rfl
+      · split at hwc
+        · cases hwc
+        · cases hm : wrapMro e.cls.mro with
+          | none => rw [hm] at hwc; cases hwc
+          | some m => rw [hm] at hwc; cases hwc; rfl
+    rw [hn, wrapName_not_glom] at hg
+    cases hg
+
+/-- `glom()` either returns the default — exactly when the caller selected this error — or
+    lets the outer handler decide -/
+theorem glomTop_cases {F : Facts} (w : WFParts F) (s : Settings) (e : ExcObj) :
+    (selected s e = true ∧ ∃ d, refDefault s = some d ∧ glomTop F s (.exc e) = .dflt d) ∨
+    (selected s e = false ∧ glomTop F s (.exc e) = outer F s e) := by
+  unfold glomTop selected
+  simp only [effSkip_eq_ref w, effDefault_eq_ref w]
+  cases hm : matchesAny e (refSkip s) with
+  | false => right; simp
+  | true =>
+    cases hd : refDefault s with
+    | none => right; simp
+    | some d => left; simp
+
+end Glom.C04
+
+namespace Glom.C04
+
+/-! ### chains of handlers -/
+
+/-- `b` is what `a` has become after any number of `glom()` handlers -/
+inductive Derives : ExcObj → ExcObj → Prop
+  | refl (e : ExcObj) : Derives e e
+  | step {a b c : ExcObj} : Derives a b → Raised b c → Derives a c
+
+/-- the classes all theorems are about -/
+def Good (F : Facts) (e : ExcObj) : Prop := Tame F e.cls ∧ ClassOK e.cls
+
+theorem Raised.good {F : Facts} {e out : ExcObj} (h : Raised e out) (hg : Good F e) : Good F out :=
+  ⟨h.tame hg.1, h.classOK hg.2⟩
+
+theorem Derives.good {F : Facts} {a b : ExcObj} (h : Derives a b) (hg : Good F a) : Good F b := by
+  induction h with
+  | refl => exact hg
+  | step _ hr ih => exact hr.good ih
+
+theorem Derives.args {a b : ExcObj} (h : Derives a b) : b.args = a.args := by
+  induction h with
+  | refl => rfl
+  | step _ hr ih => rw [hr.args, ih]
+
+/-- every except clause that caught the original catches what it has become -/
+theorem Derives.sup {F : Facts} {a b : ExcObj} (h : Derives a b) (hg : Good F a) :
+    ∀ c, isInst a c = true → isInst b c = true := by
+  induction h with
+  | refl => intro c hc; exact hc
+  | step hd hr ih => intro c hc; exact hr.sup (hd.good hg).2 c (ih c hc)
+
+theorem Derives.faithful {F : Facts} {a b : ExcObj} (h : Derives a b) (hg : Good F a) : Faithful a b :=
+  ⟨h.sup hg _ (isInst_self a), h.args⟩
+
+theorem Derives.trans {a b c : ExcObj} (h1 : Derives a b) (h2 : Derives b c) : Derives a c := by
+  induction h2 with
+  | refl => exact h1
+  | step _ hr ih => exact .step ih hr
+
+/-! ### frames -/
+
+theorem frameG_id (E : EvalEnv) (o : Outc) : frameG E o = o := by
+  unfold frameG
+  cases o with
+  | val => rfl
+  | exc x => simp
+
+theorem evalSeq_append_exc (E : EvalEnv) (pre post : List Sp) (x : Sp) (o : ExcObj)
+    (hpre : ∀ p ∈ pre, eval E p = .val) (hx : eval E x = .exc o) :
+    evalSeq E (pre ++ x :: post) = .exc o := by
+  induction pre with
+  | nil => simp [evalSeq, hx]
+  | cons p r ih =>
+    have hp : eval E p = .val := hpre p (by simp)
+    simp only [List.cons_append, evalSeq, hp]
+    exact ih (fun q hq => hpre q (by simp [hq]))
+
+theorem evalCoal_absorb (E : EvalEnv) (pre post : List Sp) (x : Sp) (sk : List String) (d : Bool)
+    (hpre : ∀ p ∈ pre, ∃ o, eval E p = .exc o ∧ matchesAny o sk = true) :
+    evalCoal E (pre ++ x :: post) sk d = evalCoal E (x :: post) sk d := by
+  induction pre with
+  | nil => rfl
+  | cons p r ih =>
+    obtain ⟨o, ho, hc⟩ := hpre p (by simp)
+    simp only [List.cons_append, evalCoal, ho, hc, if_true]
+    exact ih (fun q hq => hpre q (by simp [hq]))
+
+/-! ### contexts made of plain frames (tuple / dict / list / Spec-like / iterator steps), of any depth -/
+
+inductive Ctx where
+  | hole
+  | tup (pre : List Sp) (c : Ctx) (post : List Sp)
+  | dct (pre : List Sp) (c : Ctx) (post : List Sp)
+  | lst (c : Ctx)
+  | frame (c : Ctx)
+  | first (c : Ctx)
+
+def Ctx.plug : Ctx → Sp → Sp
+  | .hole, x => x
+  | .tup pre c post, x => .tup (pre ++ c.plug x :: post)
+  | .dct pre c post, x => .dct (pre ++ c.plug x :: post)
+  | .lst c, x => .lst (c.plug x)
+  | .frame c, x => .frame (c.plug x)
+  | .first c, x => .first (c.plug x)
+
+def Ctx.depth : Ctx → Nat
+  | .hole => 0
+  | .tup _ c _ | .dct _ c _ | .lst c | .frame c | .first c => c.depth + 1
+
+/-- everything evaluated before the hole returns; an iterator step (`First(key)`, `Iter().map`, `__next__`)
+    is not crossed by a StopIteration (Python takes it for the end of the iteration) -/
+def Ctx.PreOk (E : EvalEnv) (o : ExcObj) : Ctx → Prop
+  | .hole => True
+  | .tup pre c _ | .dct pre c _ => (∀ p ∈ pre, eval E p = .val) ∧ c.PreOk E o
+  | .lst c | .frame c => c.PreOk E o
+  | .first c => matchesAny o ["StopIteration"] = false ∧ c.PreOk E o
+
+theorem plug_propagates (E : EvalEnv) (c : Ctx) (x : Sp) (o : ExcObj)
+    (hpre : c.PreOk E o) (hx : eval E x = .exc o) : eval E (c.plug x) = .exc o := by
+  induction c with
+  | hole => exact hx
+  | tup pre c post ih =>
+    simp only [Ctx.plug, eval, frameG_id]
+    exact evalSeq_append_exc E pre post _ o hpre.1 (ih hpre.2)
+  | dct pre c post ih =>
+    simp only [Ctx.plug, eval, frameG_id]
+    exact evalSeq_append_exc E pre post _ o hpre.1 (ih hpre.2)
+  | lst c ih =>
+    simp only [Ctx.plug, eval, frameG_id, ih hpre]
+  | frame c ih =>
+    simp only [Ctx.plug, eval, frameG_id, ih hpre]
+  | first c ih =>
+    simp only [Ctx.plug, eval, frameG_id, ih hpre.2, hpre.1]
+    simp
+
+/-! ### the only exception objects an evaluation can end with -/
+
+mutual
+def hasFault : Sp → Bool
+  | .ok | .badPath | .badMatch => false
+  | .fault | .faultConv _ => true
+  | .tup xs | .dct xs => hasFaultL xs
+  | .lst x | .frame x | .first x | .nest x _ => hasFault x
+  | .coal xs _ _ => hasFaultL xs
+def hasFaultL : List Sp → Bool
+  | [] => false
+  | x :: r => hasFault x || hasFaultL r
+end
+
+def internalClasses (F : Facts) : List String :=
+  ["PathAccessError", "TypeMatchError", "CoalesceError", F.iterRaises]
+
+/-- the outcome is the prepared exception — as it is, or as the handlers of nested `glom()` calls
+    re-raised it — (only if the spec contains the fault), or one of glom's own errors -/
+def OriginOk (E : EvalEnv) (s : Bool) (o : Outc) : Prop :=
+  match o with
+  | .val => True
+  | .exc e => (s = true ∧ Derives E.inj e) ∨ ∃ c ∈ internalClasses E.F, Derives (E.internal c) e
+
+theorem OriginOk.mono {E : EvalEnv} {a b : Bool} {o : Outc} (h : OriginOk E a o) (hab : a = true → b = true) :
+    OriginOk E b o := by
+  cases o with
+  | val => trivial
+  | exc e =>
+    rcases h with ⟨ha, hd⟩ | h
+    · exact Or.inl ⟨hab ha, hd⟩
+    · exact Or.inr h
+
+theorem OriginOk.internal (E : EvalEnv) (s : Bool) {c : String} (hc : c ∈ internalClasses E.F) :
+    OriginOk E s (.exc (E.internal c)) := Or.inr ⟨c, hc, .refl _⟩
+
+theorem eval_origin (E : EvalEnv) (w : WFParts E.F) (hinj : Good E.F E.inj)
+    (hint : ∀ c, Good E.F (E.internal c)) :
+    (∀ s, OriginOk E (hasFault s) (eval E s)) ∧
+    (∀ xs sk d, OriginOk E (hasFaultL xs) (evalCoal E xs sk d)) ∧
+    (∀ xs, OriginOk E (hasFaultL xs) (evalSeq E xs)) := by
+  have hpa : "PathAccessError" ∈ internalClasses E.F := by simp [internalClasses]
+  have htm : "TypeMatchError" ∈ internalClasses E.F := by simp [internalClasses]
+  have hco : "CoalesceError" ∈ internalClasses E.F := by simp [internalClasses]
+  have hit : E.F.iterRaises ∈ internalClasses E.F := by simp [internalClasses]
+  apply eval.mutual_induct E
+    (fun s => OriginOk E (hasFault s) (eval E s))
+    (fun xs sk d => OriginOk E (hasFaultL xs) (evalCoal E xs sk d))
+    (fun xs => OriginOk E (hasFaultL xs) (evalSeq E xs))
+  case case1 => simp [eval, frameG_id, OriginOk]
+  case case2 => simp only [eval, frameG_id, hasFault]; exact Or.inl ⟨rfl, .refl _⟩
+  case case3 =>
+    intro k
+    simp only [eval, frameG_id, hasFault]
+    split
+    · cases k <;> simp only [Facts.convRaises]
+      · exact OriginOk.internal E _ hit
+      all_goals exact OriginOk.internal E _ hpa
+    · exact Or.inl ⟨rfl, .refl _⟩
+  case case4 => simp only [eval, frameG_id]; exact OriginOk.internal E _ hpa
+  case case5 => simp only [eval, frameG_id]; exact OriginOk.internal E _ htm
+  case case6 => intro a ih; simpa [eval, frameG_id, hasFault] using ih
+  case case7 => intro a ih; simpa [eval, frameG_id, hasFault] using ih
+  case case8 =>
+    intro a ih
+    simp only [eval, frameG_id, hasFault]
+    cases h : eval E a with
+    | val => simpa [h] using ih
+    | exc o => simpa [h] using ih
+  case case9 => intro a ih; simpa [eval, frameG_id, hasFault] using ih
+  case case10 =>
+    intro a ih
+    simp only [eval, frameG_id, hasFault]
+    cases h : eval E a with
+    | val => simp [OriginOk]
+    | exc o =>
+      rw [h] at ih
+      by_cases hc : matchesAny o ["StopIteration"] = true
+      · simp [hc, OriginOk]
+      · simpa [hc] using ih
+  case case11 => intro a sk d ih; simpa [eval, frameG_id, hasFault] using ih
+  case case12 =>
+    intro a s ih
+    simp only [eval, frameG_id, hasFault]
+    cases h : eval E a with
+    | val => simp [toBody, glomTop, OriginOk]
+    | exc e =>
+      rw [h] at ih
+      simp only [toBody]
+      rcases glomTop_cases w s e with ⟨_, d, _, hd⟩ | ⟨_, ho⟩
+      · rw [hd]; trivial
+      · rw [ho]
+        have hgood : Good E.F e := by
+          rcases ih with ⟨_, hd⟩ | ⟨c, _, hd⟩
+          · exact hd.good hinj
+          · exact hd.good (hint c)
+        obtain ⟨out, hout, hr⟩ := outer_raised w s e hgood.1
+        rw [hout]
+        rcases ih with ⟨hs, hd⟩ | ⟨c, hc, hd⟩
+        · exact Or.inl ⟨hs, .step hd hr⟩
+        · exact Or.inr ⟨c, hc, .step hd hr⟩
+  case case13 => intro x; simp [evalCoal, OriginOk]
+  case case14 =>
+    intro x d hd
+    have : d = false := by simpa using hd
+    subst this
+    simp only [evalCoal, Bool.false_eq_true, if_false]
+    exact OriginOk.internal E _ hco
+  case case15 => intro x r sk d hx _; simp [evalCoal, hx, OriginOk]
+  case case16 =>
+    intro x r sk d a hx hc _ ih
+    simp only [evalCoal, hx, hc, if_true]
+    exact ih.mono (by simp only [hasFaultL, Bool.or_eq_true]; exact Or.inr)
+  case case17 =>
+    intro x r sk d a hx hc ih
+    simp only [evalCoal, hx, hc]
+    rw [hx] at ih
+    exact ih.mono (by simp only [hasFaultL, Bool.or_eq_true]; exact Or.inl)
+  case case18 => simp [evalSeq, OriginOk]
+  case case19 =>
+    intro x r hx _ ih
+    simp only [evalSeq, hx]
+    exact ih.mono (by simp only [hasFaultL, Bool.or_eq_true]; exact Or.inr)
+  case case20 =>
+    intro x r a hx ih
+    simp only [evalSeq, hx]
+    rw [hx] at ih
+    exact ih.mono (by simp only [hasFaultL, Bool.or_eq_true]; exact Or.inl)
+
+/-! ### nesting levels: plain frames, iterator steps, Coalesce, nested `glom()` calls -/
+
+inductive Level where
+  | plain                                                  -- `Spec(x)`, `Call`/`Invoke` argument, …
+  | iter                                                   -- `First(x)`, `Iter().map(x)`, …
+  | coal (skip : Option (List String)) (dflt : Bool)       -- `Coalesce(x, skip_exc=…, default=…)`
+  | nest (s : Settings)                                    -- `glom(target, x, **s)` inside a callable
+
+def Level.wrap : Level → Sp → Sp
+  | .plain, x => .frame x
+  | .iter, x => .first x
+  | .coal sk d, x => .coal [x] sk d
+  | .nest s, x => .nest x s
+
+/-- the levels around a spec, outermost first -/
+def plugLevels : List Level → Sp → Sp
+  | [], x => x
+  | l :: r, x => l.wrap (plugLevels r x)
+
+/-- what one level does to what reaches it — stated with the DOCUMENTED notions only (`selected`,
+    the documented `Coalesce` default) and the handler of `glom()` -/
+def Level.pass (E : EvalEnv) : Level → Outc → Outc
+  | _, .val => .val
+  | .plain, .exc e => .exc e
+  | .iter, .exc e => if matchesAny e ["StopIteration"] then .val else .exc e
+  | .coal sk d, .exc e =>
+    if matchesAny e (sk.getD ["GlomError"]) then (if d then .val else .exc (E.internal "CoalesceError"))
+    else .exc e
+  | .nest s, .exc e =>
+    if selected s e then .val
+    else match outer E.F s e with
+      | .exc out => .exc out
+      | _ => .val
+
+def travel (E : EvalEnv) : List Level → Outc → Outc
+  | [], o => o
+  | l :: r, o => l.pass E (travel E r o)
+
+theorem level_pass (E : EvalEnv) (w : WFParts E.F) (l : Level) (x : Sp) :
+    eval E (l.wrap x) = l.pass E (eval E x) := by
+  cases l with
+  | plain => simp only [Level.wrap, eval, frameG_id]; cases eval E x <;> rfl
+  | iter =>
+    simp only [Level.wrap, eval, frameG_id]
+    cases eval E x <;> simp [Level.pass]
+  | coal sk d =>
+    simp only [Level.wrap, eval, frameG_id, evalCoal, w.coalesceSkip]
+    cases h : eval E x with
+    | val => simp [Level.pass]
+    | exc e => simp [Level.pass]
+  | nest s =>
+    simp only [Level.wrap, eval, frameG_id]
+    cases h : eval E x with
+    | val => simp [Level.pass, toBody, glomTop]
+    | exc e =>
+      simp only [toBody, Level.pass]
+      rcases glomTop_cases w s e with ⟨hs, d, _, hd⟩ | ⟨hs, ho⟩
+      · rw [hd, hs]; simp
+      · rw [ho, hs]
+        cases outer E.F s e <;> simp
+
+theorem levels_travel (E : EvalEnv) (w : WFParts E.F) (ls : List Level) (x : Sp) :
+    eval E (plugLevels ls x) = travel E ls (eval E x) := by
+  induction ls with
+  | nil => rfl
+  | cons l r ih => simp only [plugLevels, travel, level_pass E w, ih]
+
+/-- what leaves any number of levels is what entered, re-raised by the handlers on the way, unless a
+    Coalesce level replaced it by its CoalesceError -/
+theorem travel_derives (E : EvalEnv) (w : WFParts E.F) (hint : Good E.F (E.internal "CoalesceError"))
+    (ls : List Level) (e out : ExcObj) (hg : Good E.F e) (h : travel E ls (.exc e) = .exc out) :
+    Derives e out ∨ Derives (E.internal "CoalesceError") out := by
+  induction ls generalizing out with
+  | nil => simp only [travel, Outc.exc.injEq] at h; subst h; exact Or.inl (.refl _)
+  | cons l r ih =>
+    simp only [travel] at h
+    cases hr : travel E r (.exc e) with
+    | val => rw [hr] at h; cases l <;> simp [Level.pass] at h
+    | exc m =>
+      rw [hr] at h
+      have hm := ih m hr
+      have hgm : Good E.F m := by
+        rcases hm with hd | hd
+        · exact hd.good hg
+        · exact hd.good hint
+      cases l with
+      | plain => simp only [Level.pass, Outc.exc.injEq] at h; subst h; exact hm
+      | iter =>
+        simp only [Level.pass] at h
+        split at h
+        · cases h
+        · simp only [Outc.exc.injEq] at h; subst h; exact hm
+      | coal sk d =>
+        simp only [Level.pass] at h
+        split at h
+        · split at h
+          · cases h
+          · simp only [Outc.exc.injEq] at h; subst h; exact Or.inr (.refl _)
+        · simp only [Outc.exc.injEq] at h; subst h; exact hm
+      | nest s =>
+        simp only [Level.pass] at h
+        split at h
+        · cases h
+        · obtain ⟨o2, ho2, hr2⟩ := outer_raised w s m hgm.1
+          rw [ho2] at h
+          simp only [Outc.exc.injEq] at h; subst h
+          rcases hm with hd | hd
+          · exact Or.inl (.step hd hr2)
+          · exact Or.inr (.step hd hr2)
+
+end Glom.C04
+
+namespace Glom.C04
+
+/-- **the merge respects every order it is given**: each input list — the MRO of each base, and the
+    list of the bases themselves — is a subsequence of the result -/
+theorem c3merge_order : ∀ (n : Nat) (ls : List (List String)) (r : List String),
+    c3merge n ls = some r → ∀ l ∈ ls, l.Sublist r := by
+  intro n
+  induction n with
+  | zero =>
+    intro ls r h l hl
+    unfold c3merge at h
+    split at h
+    · rename_i he
+      have := List.all_eq_true.mp he l hl
+      cases l with
+      | nil => exact List.nil_sublist _
+      | cons a t => simp at this
+    · cases h
+  | succ n ih =>
+    intro ls r h l hl
+    unfold c3merge at h
+    split at h
+    · rename_i he
+      have := List.all_eq_true.mp he l hl
+      cases l with
+      | nil => exact List.nil_sublist _
+      | cons a t => simp at this
+    · split at h
+      · cases h
+      · rename_i hd _
+        cases hm : c3merge n (ls.map (dropHead hd)) with
+        | none => rw [hm] at h; cases h
+        | some r' =>
+          rw [hm] at h
+          simp only [Option.map_some, Option.some.injEq] at h
+          subst h
+          have hsub := ih _ _ hm _ (List.mem_map_of_mem (f := dropHead hd) hl)
+          cases l with
+          | nil => exact List.nil_sublist _
+          | cons a t =>
+            by_cases ha : a = hd
+            · subst ha
+              rw [dropHead_cons_self] at hsub
+              exact List.Sublist.cons_cons _ hsub
+            · rw [dropHead_cons_ne t ha] at hsub
+              exact List.Sublist.cons _ hsub
+
+theorem matchesAny_mono {e out : ExcObj} (h : ∀ c, isInst e c = true → isInst out c = true) (cs : List String)
+    (hm : matchesAny e cs = true) : matchesAny out cs = true := by
+  simp only [matchesAny, List.any_eq_true] at hm ⊢
+  obtain ⟨c, hc, hi⟩ := hm
+  exact ⟨c, hc, h c hi⟩
+
+end Glom.C04
